@@ -1,4 +1,6 @@
 import Zstd.Driver.Tables
+import Zstd.Driver.Headers
+import Zstd.Driver.Window
 import Zstd.Driver.Spec
 import Zstd.Driver.Dec
 import Zstd.Driver.Matcher
@@ -16,6 +18,8 @@ structure St where
 def step (st : St) (line : String) : St × String :=
   match line.trimAscii.toString.splitOn " " with
   | "tables" :: cmd :: args => (st, Tables.handle cmd args)
+  | "headers" :: cmd :: args => (st, Headers.handle cmd args)
+  | "window" :: cmd :: args => (st, Window.handle cmd args)
   | "spec" :: cmd :: args => (st, Driver.Spec.handle cmd args)
   | "matcher" :: cmd :: args => let (m, o) := Matcher.step st.matcher cmd args; ({ st with matcher := m }, o)
   | "dec" :: args => let (s2, o) := Dec.step st.dec args; ({ st with dec := s2 }, o)
